@@ -554,3 +554,26 @@ def c05(a):
               "value in both, Ok value inside the range of Ranges.tla.")
     c.assumptions = TRUSTED + ["the harness's projection of values", "the two cargo profiles differ only in debug-assertions and overflow-checks"]
     return c.finish()
+
+
+@prop("C11")
+def c11(a):
+    c = Check("C11", a.tier, a.seed)
+    workdir("C11")
+    binary = build_harness()
+    if not a.replay:
+        c.add_mc(tlc_mc("MC_Round.tla", "MC_Round.cfg", os.path.join(workdir("C11", False), "mc"), workers=4))
+    zoned_part(c, a, binary, "c11")
+    c.rule = ("sp_round / sp_total / sp_cmp events: Span::round (incl. balancing = smallest ns, increment 1), Span::total and "
+              "Span::compare with no reference, the days-are-24-hours marker, civil datetimes and dates (month ends, Feb 29, "
+              "both range ends) and zoned datetimes at instants within +-2 days of transitions in ~44 zones; spans that meet "
+              "month ends, DST days and unit overflow, plus seeded spans up to the unit limits, both signs; every smallest x "
+              "largest x mode, legal increments and illegal requests. SpanRel.tla derives the goal from the reference "
+              "semantics (reference (+) span by CivilArith / Zoned.tla, the balanced difference by the until rules): the "
+              "exact rounded nanoseconds (uniform units), the position reference (+) lower/upper candidate the mode "
+              "prescribes (calendar units), or 'within one increment on the mode's side' (zoned reference, time unit, calendar "
+              "largest); the result must have the requested shape (nothing outside smallest..largest, multiple of the "
+              "increment, one sign) and reach that position. Totals are compared as exact rationals against the f64's "
+              "mantissa/exponent (relative 2^-40); compare against the order of the two positions.")
+    c.assumptions = TRUSTED + ["the harness's independent TZif / POSIX TZ readers", "harness witnesses floor(T/inc) and result/inc, both verified by multiplication in the spec"]
+    return c.finish()
